@@ -581,8 +581,12 @@ def run_kani_property(pid, tier, seed, replay=None):
         for r in inconcl:
             print(f"INCONCLUSIVE property={pid} harness={r['harness']}: {r.get('why','')[:2000]}")
         return 2
+    extra = os.environ.get("VERIF_EXTRA_PART_STATUS")  # status of a second engine's part of the same property (C17)
+    if extra in ("1", "2"):
+        print(f"[{pid}] Kani part: {sum(1 for r in results if r['verdict']=='pass')} harnesses passed (the property's other part did not pass, see above)")
+        return 0
     print(f"OK property={pid} tier={tier}: {sum(1 for r in results if r['verdict']=='pass')} harnesses passed, "
-          f"{sum(r.get('n_success',0) for r in results)} solver-checked obligations, {wall:.0f}s")
+          f"{sum(r.get('n_success',0) for r in results)} solver-checked obligations{os.environ.get('VERIF_EXTRA_PART_NOTE', '')}, {wall:.0f}s")
     return 0
 
 
@@ -657,8 +661,49 @@ def main():
     seed = int(os.environ.get("VERIF_SEED", "0") or 0)
     spec = PROPS[a.pid]
     if spec["engine"] == "kani":
+        rc_m, part, part_out = 0, None, None
+        if a.pid == "C17" and a.replay and a.replay.endswith(".json"):
+            # counterexample of the runtime-loop part (mirsym): replayed by the driver
+            sys.exit(subprocess.call(["python3-vt", os.path.join(VERIF, "mirsym", "driver.py"), a.pid, "--tier", a.tier, "--replay", a.replay]))
+        if a.pid == "C17" and not a.replay and not os.environ.get("VERIF_ONLY"):
+            # C17 has a second part decided by engine M (the UDP runtime loop): run it first
+            part_out = os.path.join(SCRATCH_ROOT, f"C17-part-{os.getpid()}.json")
+            os.makedirs(SCRATCH_ROOT, exist_ok=True)
+            env = dict(os.environ)
+            env["VERIF_PART_OUT"] = part_out
+            rc_m = subprocess.call(["python3-vt", os.path.join(VERIF, "mirsym", "driver.py"), a.pid, "--tier", a.tier], env=env)
+            try:
+                part = json.load(open(part_out))
+            except Exception:  # noqa: BLE001
+                part = None
+                if rc_m == 0:
+                    rc_m = 2
+                    print("INCONCLUSIVE property=C17: the runtime-loop part produced no result file")
+            finally:
+                if os.path.exists(part_out):
+                    os.remove(part_out)
+            os.environ["VERIF_EXTRA_PART_STATUS"] = str(rc_m)
+            if part and rc_m == 0:
+                os.environ["VERIF_EXTRA_PART_NOTE"] = f" + {part['discharged']}/{part['obligations']} runtime-loop obligations (MIR, z3)"
         try:
             rc = run_kani_property(a.pid, a.tier, seed, a.replay)
+            if part is not None:
+                evp = os.path.join(os.environ.get("VERIF_EVIDENCE_DIR", os.path.join(VERIF, "evidence")), f"{a.pid}.json")
+                ev = json.load(open(evp))
+                c = ev["coverage"]
+                c["runtime_loop_mirsym"] = part
+                c["obligations"] += part["obligations"]
+                c["discharged"] += part["discharged"]
+                c["queries"] += part["solver_queries"]
+                c["solver_time_s"] = round(c["solver_time_s"] + part["solver_time_s"], 1)
+                c["functions_encoded"] = c["functions_encoded"] + [f"actor::spawn::spawn per-actor thread closure {part['function']} (MIR sha256 {part['mir_sha256']}, {part['blocks']} basic blocks)"]
+                c["inconclusive"] = c["inconclusive"] + [{"harness": "runtime loop (mirsym)", "why": w[:600]} for w in part["inconclusive"]]
+                ev["violations"] += part["violations"]
+                json.dump(ev, open(evp, "w"), indent=1)
+            if rc_m == 1 or rc == 1:
+                rc = 1
+            elif rc_m == 2 or rc == 2:
+                rc = 2
         except Exception:  # noqa: BLE001 - an internal error is never a verdict
             import traceback
             print(f"INCONCLUSIVE property={a.pid}: internal error in the runner: {traceback.format_exc()[-1200:]}")
